@@ -82,7 +82,7 @@ def describe_a(b):
             b["obs"], b.get("store"), "anon on" if b.get("anon") else "anon off", b.get("v"), b.get("concrete"))
     if b.get("kind") == "count-exceeded":
         return "%s: statistics counter %s = %s exceeds what non-ignored queries account for (%s)" % (
-            b["obs"], b.get("group"), b.get("seen"), b.get("max"))
+            b["obs"], b.get("group"), b.get("seen"), b.get("max", 0))
     if b.get("kind") == "not-anonymised":
         return "%s: address not anonymised in %s: %s %s" % (b["obs"], b.get("store"), b.get("group", ""), b.get("concrete", ""))
     return json.dumps(b)
